@@ -88,8 +88,10 @@ inductive Gate
   | up (f : Frame) -- handed to `self._connected_node.receive_frame` (TTL already decremented)
 deriving DecidableEq, Repr
 
-/-- `NIC.receive_frame` (host), `SwitchPort.receive_frame`, `RouterInterface.receive_frame` (router, firewall). -/
-def ifaceRx (k : Kind) (i : Iface) (f : Frame) : Gate :=
+/-- `NIC.receive_frame` (host), `SwitchPort.receive_frame`, `RouterInterface.receive_frame` (router, firewall).
+`ifaces` = all interfaces of the node: a host NIC accepts a unicast frame only when it is for the NIC's MAC *and*
+for an IP address of the host (`Node.ip_is_network_interface`, any interface, enabled or not — C08's repair). -/
+def ifaceRx (k : Kind) (ifaces : List Iface) (i : Iface) (f : Frame) : Gate :=
   if !i.enabled then .disabled else
   let f' := { f with ttl := f.ttl - 1 }
   if f'.ttl < 1 then .ttlExpired else
@@ -100,7 +102,7 @@ def ifaceRx (k : Kind) (i : Iface) (f : Frame) : Gate :=
   | .host =>
     if f.dstMac == bcastMac then
       (if f.pkt.dstIp == i.ip || f.pkt.dstIp == i.bcastAddr then .up f' else .notAddressed)
-    else if f.dstMac == i.mac then .up f' else .notAddressed
+    else if f.dstMac == i.mac && ifaces.any (fun j => j.ip == f.pkt.dstIp) then .up f' else .notAddressed
 
 /-! ### the software layer, abstract -/
 
@@ -273,7 +275,7 @@ def nodeRx (soft : Soft W) (s : Node W) (p : Nat) (f : Frame) : Script W :=
   match s.ifaces[p]? with
   | none => .done s
   | some i =>
-    match ifaceRx s.kind i f with
+    match ifaceRx s.kind s.ifaces i f with
     | .up f' => guardSends portEnabled (nodeLayer soft s p f')
     | _ => .done s
 
@@ -297,6 +299,9 @@ def routerOrder : List String :=
 
 /-- interface `receive_frame` of NIC / SwitchPort / RouterInterface, in source order -/
 def ifaceOrder : List String := ["guard:enabled", "call:decrement_ttl", "test:ttl", "deliver:node.receive_frame"]
+
+/-- the unicast branch of `ifaceRx … .host` also requires the destination IP to be an address of the host -/
+def nicUnicastNeedsOwnIp : Bool := true
 
 /-- does `<Class>.receive_frame` itself test `operating_state` before processing? -/
 def powerGuard : Kind → Bool
